@@ -10,12 +10,14 @@ sys.path.insert(0, VERIF)
 BASE = json.load(open("/root/.vp/BASELINE.json"))
 
 props = [json.loads(l) for l in open(os.path.join(VERIF, "properties.jsonl"))]
+# only properties whose check has been reviewed and integrated by the coordinator are claimed
+INTEGRATED = set(open(os.path.join(VERIF, "tools", "integrated.txt")).read().split())
 checks, na = [], []
 for p in props:
     pid = p["id"]
     path = os.path.join(VERIF, "harness", "drivers", pid.lower() + ".py")
     m = None
-    if os.path.exists(path):
+    if os.path.exists(path) and pid in INTEGRATED:
         m = importlib.import_module("harness.drivers." + pid.lower())
     if m is None or not hasattr(m, "MANIFEST"):
         na.append({"property_id": pid, "reason": "check not built yet in this round (planned in DESIGN.md section 4); nothing is claimed for it"})
